@@ -1,6 +1,6 @@
 """C15 — printed signatures parse back; sign and hash commands interoperate."""
 from .. import cligen, txgen
-from ..gen import both, boundary_scalar, lib_case, rand_bytes
+from ..gen import both, boundary_scalar, lib_case, rand_bytes, limb_value
 from ..ref import eth, secp
 from ..ref import tx as reftx
 from ..ref.keccak import keccak256
@@ -152,6 +152,10 @@ def gen(shard, rng, tier):
                     t = "0x%064x%064x%02x" % (r, s, vb)
                     yield from both(lib_case("parse", {"op": "sig.parse", "text": t}, {"cls": "scalars"}))
                     yield from both(lib_case("parse", {"op": "sig.parse", "text": t[2:]}, {"cls": "scalars"}))
+        for _ in range(400):
+            r, s = (limb_value(rng), rng.randrange(1, secp.HALF_N)) if rng.random() < 0.5 else (rng.randrange(1, N), limb_value(rng))
+            t = "0x%064x%064x%02x" % (r, s, rng.choice([27, 28]))
+            yield from both(lib_case("parse", {"op": "sig.parse", "text": t if rng.random() < 0.7 else t[2:]}, {"cls": "limb-scalars"}))
         for _ in range(shard["count"]):
             t = list(good)
             k = rng.randrange(7)
